@@ -375,6 +375,27 @@ pub struct JournalSim {
     /// file length after the last operation that is known to have called `sync_data`
     pub synced_len: u64,
     pub steps: u64,
+    /// Shadow copy of the journal as the server knows it: the surviving file of the last
+    /// (re)start plus every event handed to the journal thread since, written at once. It is
+    /// the reference for "the journal before the prune" (the real file lags behind by the
+    /// writer's buffer) and is never read by the code under test.
+    shadow: Option<JournalWriter>,
+    shadow_path: PathBuf,
+}
+
+impl JournalSim {
+    fn reset_shadow(&mut self) {
+        self.shadow = None;
+        let _ = std::fs::copy(&self.path, &self.shadow_path);
+        self.shadow = JournalWriter::create_or_append(&self.shadow_path, None).ok();
+    }
+
+    fn shadow_store(&mut self, event: &Event) {
+        if let Some(w) = &mut self.shadow {
+            let _ = w.store(event.clone());
+            let _ = w.flush();
+        }
+    }
 }
 
 /* ---------------------------------------------------------------------------------------- */
@@ -626,6 +647,8 @@ impl World {
                     result,
                     synced_len: 0,
                     steps: 0,
+                    shadow: None,
+                    shadow_path: self.scratch.join("journal.shadow"),
                 }),
             )
         } else {
@@ -675,6 +698,7 @@ impl World {
                 return Err(p);
             }
             j.synced_len = std::fs::metadata(&j.path).map(|m| m.len()).unwrap_or(0);
+            j.reset_shadow();
         }
 
         if let Some(restore) = restore {
@@ -1635,13 +1659,14 @@ impl World {
             return false;
         };
         let syncs = !matches!(&m, EventStreamMessage::Event(_));
-        if matches!(&m, EventStreamMessage::PruneJournal { .. }) {
-            // flush first so that a copy of the journal as it is before the prune can be taken
-            // (the prune itself starts with the same flush)
-            let (ftx, _frx) = oneshot::channel();
-            let _ = j.tx.send(EventStreamMessage::FlushJournal(ftx));
-            self.exec.poll(fut);
-            let _ = std::fs::copy(&j.path, self.scratch.join("journal.before_prune"));
+        let prune = matches!(&m, EventStreamMessage::PruneJournal { .. });
+        if let EventStreamMessage::Event(e) = &m {
+            j.shadow_store(e);
+        }
+        if prune {
+            // the journal as the server knows it at this moment (the real file lags behind by
+            // the writer's buffer; the prune has to write that out first)
+            let _ = std::fs::copy(&j.shadow_path, self.scratch.join("journal.before_prune"));
             _obs.journal_pruned = true;
         }
         let _ = j.tx.send(m);
@@ -1649,6 +1674,10 @@ impl World {
         j.steps += 1;
         if syncs {
             j.synced_len = std::fs::metadata(&j.path).map(|m| m.len()).unwrap_or(0);
+        }
+        if prune {
+            // from now on the pruned file is what the server knows
+            j.reset_shadow();
         }
         if r == PollResult::Done {
             j.fut = None;
@@ -1669,8 +1698,15 @@ impl World {
         }
         let r = catch(|| {
             while let Some(m) = j.pending.pop_front() {
+                let prune = matches!(&m, EventStreamMessage::PruneJournal { .. });
+                if let EventStreamMessage::Event(e) = &m {
+                    j.shadow_store(e);
+                }
                 let _ = j.tx.send(m);
                 self.exec.poll(fut);
+                if prune {
+                    j.reset_shadow();
+                }
             }
             let (ftx, _frx) = oneshot::channel();
             let _ = j.tx.send(EventStreamMessage::FlushJournal(ftx));
@@ -1716,7 +1752,10 @@ impl World {
         // everything the server had produced (including the BufWriter tail that a real crash
         // loses): the longest version of the journal, used only to locate record boundaries
         let _ = std::fs::copy(&self.journal_path, self.scratch.join("journal.full"));
-        let keep = keep_bytes.unwrap_or(os_len).min(os_len);
+        // A crash while the writer's buffer is being written out (or after the buffer spilled)
+        // leaves a prefix of the tail: `keep_bytes` may point beyond what had reached the file.
+        let full_len = self.journal_file_len();
+        let keep = keep_bytes.unwrap_or(os_len).min(full_len);
         {
             let f = std::fs::OpenOptions::new()
                 .write(true)
@@ -1724,7 +1763,7 @@ impl World {
                 .expect("journal file");
             f.set_len(keep).unwrap();
         }
-        obs.note = Some(format!("crash: os_len={os_len} keep={keep}"));
+        obs.note = Some(format!("crash: os_len={os_len} full_len={full_len} keep={keep}"));
         let _ = std::fs::copy(&self.journal_path, self.cut_journal_path());
         // MIRROR: bootstrap::start_server
         let restore = match catch(|| RestoreProbe::load(&self.journal_path)) {
